@@ -10,8 +10,10 @@ Definition calc_parent_path (parent volume_top_dir : str) (pm : path_maker) : st
   match pm with
   | AbsolutePaths => parent
   | RelativePaths =>
-      if str_eqb parent volume_top_dir || starts_with parent (volume_top_dir ++ [c_slash])
-      then skipn (length (volume_top_dir ++ [c_slash])) parent
+      (* prefix = volume_top_dir.rstrip('/') + '/'  (so that the top directory "/" works too) *)
+      let prefix := rstrip_c c_slash volume_top_dir ++ [c_slash] in
+      if str_eqb parent volume_top_dir || starts_with parent prefix
+      then skipn (length prefix) parent
       else parent
   end.
 
